@@ -31,6 +31,9 @@ def run(repo, rep, tier):
     rep.undecided = ["1e-8 / 1e-9 round trips", "canonical field ranges at boundaries", "monotone date tuple"]
     opconf(repo, rep)
     funnel(repo, rep)
+    # field extraction (get_date) is the inverse of the date -> JDE conversion: constants must pair up
+    from .c01 import d34
+    d34(repo, rep)
     fam = [(MOD, q) for q in repo.mod(MOD).functions if q.startswith(CLS + ".__")] + \
           [(MOD, "Epoch." + q) for q in ("set", "get_date", "get_full_date", "check_input_date", "_check_values", "jde", "mjd")]
     effects.check_functions(repo, rep, fam)
